@@ -468,7 +468,8 @@ PROPS['C14'].update({
                   'functions of their arguments; the counting lemma (row sizes add up to the number of true cells) is Finset.card_sigma (lemmas/Upset.lean: card_true_cells); '
                   '"editing either side never changes the other" follows from the freshness obligations and the frame clauses of the C13 mutator units, not a separate obligation.',
 })
-PROPS['C15']['units'] += ['lemma.transpose', 'contexts.relations', 'junctors.Relations.__init__']
+PROPS['C15']['units'] += ['lemma.transpose', 'contexts.relations', 'junctors.Relations.__init__', 'fcbo.fast_generate_from.complete', 'fcbo.fcbo_dual.complete',
+                          'lemma.line_closed', 'lemma.meet_closed.O', 'lemma.meet_closed.P', 'lemma.bits_subset'] + CBO_LEMMAS
 PROPS['C15'].update({
     'level': 'proof',
     'proved_part': 'the code computes the spec functions (units of C01/C03/C05/C07/C16; one closure text for both directions = duality), and the spec functions are invariant: '
@@ -483,4 +484,18 @@ PROPS['C15'].update({
     'level_note': 'Relational property: the composition "code = spec for each table" + "spec statements for the two tables" is the modular argument, not a single obligation; row permutation / row duplication '
                   'are the column lemmas applied to the transposed tables (L-TRANSPOSE); assumes the bitsets contracts of the underlying units.',
 })
+# the bitsets package itself under contract (contracts/bitsets_lib.py): library contracts that used to be assumed
+BITSETS_CORE = ['bitsets.Meta.__init__', 'bitsets.MemberBits.frommembers', 'bitsets.MemberBits.frombools', 'bitsets.MemberBits.bools',
+                'bitsets.MemberBits.members', 'bitsets.Series.frombools', 'bitsets.Series.bools', 'bitsets.integers.indexes']
+BITSETS_ATOMS = ['bitsets.Meta.__init__', 'bitsets.MemberBits.atoms', 'bitsets.MemberBits.inatoms', 'bitsets.Meta.atomic', 'bitsets.Meta.inatomic']
+BITSETS_KEYS = ['bitsets.MemberBits.shortlex', 'bitsets.MemberBits.longlex', 'bitsets.integers.reinverted', 'lemma.bitsets.key_injective']
+BITSETS_REDUCE = ['bitsets.Meta.reduce_and', 'bitsets.Meta.reduce_or']
+_BS_NOTE = (' The bitsets functions used here are themselves under contract (units bitsets.*, verified from the installed package source); what remains assumed of bitsets: '
+            "bin(x).count('1') = member count, indexes_optimized = indexes (both via bin()), powerset/combos.shortlex, the class registry.")
+for _p, _l in (('C01', BITSETS_CORE), ('C19', BITSETS_CORE), ('C02', BITSETS_CORE), ('C03', BITSETS_ATOMS + BITSETS_KEYS), ('C05', BITSETS_ATOMS + BITSETS_KEYS),
+               ('C06', BITSETS_KEYS), ('C07', BITSETS_REDUCE), ('C10', BITSETS_CORE), ('C11', ['bitsets.integers.indexes', 'bitsets.Series.index_sets', 'bitsets.MemberBits.bools']),
+               ('C04', BITSETS_ATOMS), ('C13', []), ('C14', ['bitsets.MemberBits.frombools', 'bitsets.MemberBits.bools', 'bitsets.Series.frombools', 'bitsets.Series.bools'])):
+    PROPS[_p]['units'] = PROPS[_p]['units'] + [u for u in _l if u not in PROPS[_p]['units']]
+    if _l:
+        PROPS[_p]['level_note'] += _BS_NOTE
 NOT_APPLICABLE = {}
